@@ -25,15 +25,15 @@ def topo (d lon lat : α) (r : V3 α) : Topo α :=
     z := cosLat * cosTh * r.x + cosLat * sinTh * r.y + sinLat * r.z,
     theta := theta }
 
-/-- `ndarray.clip(max=1)` (NaN stays NaN: `np.minimum`) -/
-def clipMax1 (x : α) : α := if Num.gt x (1 : α) then (1 : α) else x
+/-- `clip(min=-1, max=1)` (NaN stays NaN) -/
+def clip1 (x : α) : α := if Num.gt x (1 : α) then (1 : α) else if Num.lt x (-(1 : α)) then -(1 : α) else x
 
 /-- azimuth / elevation (degrees) of the module-level `orbital.get_observer_look` given the ECI difference vector -/
 def lookModuleOfDiff (d lonDeg latDeg : α) (r : V3 α) : α × α :=
   let t := topo d (deg2rad lonDeg) (deg2rad latDeg) r
   let az := Num.pymod (Num.atan2 (-t.e) t.s + Num.pi) ((2 : α) * Num.pi)
   let rg := Num.sqrt (r.x * r.x + r.y * r.y + r.z * r.z)
-  let el := Num.asin (clipMax1 (t.z / rg))
+  let el := Num.asin (clip1 (t.z / rg))
   (rad2deg az, rad2deg el)
 
 /-- module-level `get_observer_look(sat_lon, sat_lat, sat_alt, t, lon, lat, alt)` -/
@@ -42,17 +42,10 @@ def lookModule (d satLon satLat satAlt lonDeg latDeg alt : α) : α × α :=
   let o := (observerPosition d lonDeg latDeg alt).1
   lookModuleOfDiff d lonDeg latDeg (V3.sub p o)
 
-/-- `Orbital.get_observer_look` given the satellite ECI position in km (as in the pinned source: arctan + quadrant fixes, no clip) -/
+/-- `Orbital.get_observer_look` given the satellite ECI position in km (arctan2 + clip, as the module function) -/
 def lookMethodOfPos (d : α) (pos : V3 α) (lonDeg latDeg alt : α) : α × α :=
   let o := (observerPosition d lonDeg latDeg alt).1
-  let r := V3.sub pos o
-  let t := topo d (deg2rad lonDeg) (deg2rad latDeg) r
-  let az0 := Num.atan (-t.e / t.s)
-  let az1 := if Num.gt t.s (0 : α) then az0 + Num.pi else az0
-  let az := if Num.lt az1 (0 : α) then az1 + (2 : α) * Num.pi else az1
-  let rg := Num.sqrt (r.x * r.x + r.y * r.y + r.z * r.z)
-  let el := Num.asin (t.z / rg)
-  (rad2deg az, rad2deg el)
+  lookModuleOfDiff d lonDeg latDeg (V3.sub pos o)
 
 /-! ### sub-satellite point -/
 
